@@ -50,6 +50,13 @@ def handle : List String → Option String
       some (showMat (xs.map fun x => (List.range nb).map fun i => cox knots deg i x))
   | ["c12.knots", xmin, xmax, nk, deg] => do
       some (showRats (splineKnots (← parseRat? xmin) (← parseRat? xmax) (← nk.toNat?) (← deg.toNat?)))
+  | ["c12.xbasis", nk, deg, xs] => do
+      -- knots from the extremes of x, then the design matrix of x on them (`pSplineBasis`, theorem basis_magnitude_free)
+      let nk ← nk.toNat?
+      let deg ← deg.toNat?
+      let xs ← parseList? parseRat? xs
+      let rows := pSplineBasis xs nk deg
+      some s!"{showRats (xKnots xs nk deg)}|{";".intercalate (rows.map fun r => s!"{r.left}:{showRats r.vals}")}"
   | ["c12.midcount", nk, deg] => do some (toString (basisMidpointsCount (← nk.toNat?) (← deg.toNat?)))
   | _ => none
 
